@@ -19,6 +19,7 @@ pub tracked struct Trace<Req, Res, E> {
     pub ghost recv_ok: nat,                 // Ok results received
     pub ghost recv_err: nat,                // Err results received
     pub ghost draws: nat,                   // random draws this task consumed from the seeded generator
+    pub ghost draws_at_future: nat,         // how many of them had been consumed when the returned future was created
     pub ghost call_at: nat,                 // index in ev of the most recent InnerCall event
     pub ghost timer: Option<Duration>,      // duration handed to the deadline timer (timeout / sleep racing the inner call)
     pub ghost awaits_before_timer: nat,     // awaits performed before the deadline timer was created
@@ -64,7 +65,7 @@ impl<Req, Res, E> Trace<Req, Res, E> {
     }
     pub open spec fn fresh(self) -> bool {
         self.ev.len() == 0 && self.calls == 0 && self.done == 0 && self.held.len() == 0 && self.held.finite() && self.unguarded == 0 && self.slept == 0
-            && self.notes.len() == 0 && self.spawned == 0 && self.spawn_at.len() == 0 && self.queue.len() == 0 && self.last_recv is None && !self.tx_alive && self.recv_ok == 0 && self.recv_err == 0 && self.draws == 0 && self.call_at == 0 && self.timer is None && self.awaits_before_timer == 0 && !self.inner_dropped && !self.opaque && self.store_gets.len() == 0 && self.store_inserts.len() == 0 && self.sent.len() == 0 && self.removed == 0 && self.published is None && self.permits == 0 && self.guarded == 0 && self.incs == 0 && self.decs == 0 && self.obs_inflight is None && self.obs_limit is None && self.reqs.len() == 0 && self.slept_since_done == 0 && !self.granted_since_done && !self.denied && self.fb_calls == 0 && self.fb_req is None && self.fb_done is None
+            && self.notes.len() == 0 && self.spawned == 0 && self.spawn_at.len() == 0 && self.queue.len() == 0 && self.last_recv is None && !self.tx_alive && self.recv_ok == 0 && self.recv_err == 0 && self.draws == 0 && self.draws_at_future == 0 && self.call_at == 0 && self.timer is None && self.awaits_before_timer == 0 && !self.inner_dropped && !self.opaque && self.store_gets.len() == 0 && self.store_inserts.len() == 0 && self.sent.len() == 0 && self.removed == 0 && self.published is None && self.permits == 0 && self.guarded == 0 && self.incs == 0 && self.decs == 0 && self.obs_inflight is None && self.obs_limit is None && self.reqs.len() == 0 && self.slept_since_done == 0 && !self.granted_since_done && !self.denied && self.fb_calls == 0 && self.fb_req is None && self.fb_done is None
             && self.last_req is None && self.last_done is None && !self.admitted && !self.created && self.blocked == 0 && self.ready_err is None
     }
 }
